@@ -20,6 +20,7 @@ func main() {
 	list := flag.String("list", "", "list function keys containing substring")
 	lemma := flag.String("lemma", "", "lemma name to check")
 	timeout := flag.Int("t", 10, "solver timeout (s)")
+	ssaDump := flag.String("ssa", "", "print SSA of function key(s)")
 	flag.Parse()
 	eng, err := loadEngine(*repo, findSpecFiles(*trusted))
 	if err != nil {
@@ -35,6 +36,14 @@ func main() {
 		}
 		sort.Strings(ks)
 		fmt.Println(strings.Join(ks, "\n"))
+		return
+	}
+	if *ssaDump != "" {
+		for _, k := range strings.Split(*ssaDump, ",") {
+			if fn := eng.funcByKey[k]; fn != nil {
+				fn.WriteTo(os.Stdout)
+			}
+		}
 		return
 	}
 	opts := solveOpts{outDir: *out, quickS: *timeout, retryS: *timeout * 2, seed: 1, keep: *dump}
